@@ -3,6 +3,7 @@ package props
 import (
 	"bytes"
 	"encoding/json"
+	"fmt"
 	"reflect"
 	"strconv"
 	"strings"
@@ -205,6 +206,27 @@ func jsonSkeleton(b []byte) string {
 	return sb.String()
 }
 
+var c12Preds [][]byte
+
+// c12Predecessors: encodings whose root has a right operand, a range, a distance and a power.
+func c12Predecessors() [][]byte {
+	if c12Preds == nil {
+		for _, e := range []*expr.Expression{
+			expr.AND(expr.Eq("a", "b"), expr.Eq("c", 1)),
+			expr.Rang("r", 1, 5, true),
+			expr.FUZZY(expr.Eq("f", "g"), 3),
+			expr.BOOST(expr.OR(expr.Eq("p", "q"), expr.IN("l", expr.LIST([]*expr.Expression{expr.Lit("x"), expr.Lit("y")}))), 2.5),
+		} {
+			b, err := json.Marshal(e)
+			if err != nil {
+				panic(err)
+			}
+			c12Preds = append(c12Preds, b)
+		}
+	}
+	return c12Preds
+}
+
 func c12Check(ctx *core.Ctx, kind, in string) {
 	for _, df := range []string{"", "dfield"} {
 		e, err, ok := parse(ctx, in, df)
@@ -231,6 +253,22 @@ func c12Check(ctx *core.Ctx, kind, in string) {
 			continue
 		}
 		ctx.Count("round_trips", 1)
+		// decoding into a value that already holds another expression must give the same result
+		// as decoding into a fresh one (a reused variable, a json.Decoder stream)
+		if ctx.Index()%4 == 0 {
+			for pi, pred := range c12Predecessors() {
+				var x expr.Expression
+				var e1, e2 error
+				if !ctx.Call("UnmarshalJSON(reused)", func() { e1 = json.Unmarshal(pred, &x); e2 = json.Unmarshal(b, &x) }) {
+					break
+				}
+				ctx.Count("reused_receiver_decodes", 1)
+				if e1 != nil || e2 != nil || !deepEqual(&x, &d) {
+					ctx.Violate("c12:reused-receiver-differs:"+fmt.Sprint(pi), "decoding the encoding of Parse(%q) into a value that held %s gives (err %v/%v)\n  %s\ninstead of\n  %s", in, pred, e1, e2, gostr(&x), gostr(&d))
+					break
+				}
+			}
+		}
 		var verr error
 		if ctx.Call("Validate", func() { verr = expr.Validate(&d) }) && verr != nil {
 			ctx.Violate("c12:decoded-invalid:"+errClass(verr), "the decoded encoding of Parse(%q) fails Validate: %v\n  json %s", in, verr, b)
@@ -304,7 +342,7 @@ func (c12) Finish(res *core.Result, cov map[string]any) []string {
 	cov["distinct_nontrivial"] = res.NDistinct("nontrivial")
 	cov["exhaustive"] = true
 	cov["operators_seen"] = res.NDistinct("operators")
-	cov["rule"] = "every accepted valid-UTF-8 input among token sequences up to length L (exhaustive), depth<=2 trees, fuzzed inputs, hostile values in every leaf position and a fixed list of powers/distances/number spellings, with and without a default field: Marshal, Unmarshal, Validate, byte-identical re-encoding, identical String/Render/RenderParam, and DeepEqual whenever every leaf has the kind the harness' own inference assigns to its JSON text (exceptions are counted, not assumed). Non-trivial = distinct JSON skeleton."
+	cov["rule"] = "every accepted valid-UTF-8 input among token sequences up to length L (exhaustive), depth<=2 trees, fuzzed inputs, hostile values in every leaf position and a fixed list of powers/distances/number spellings, with and without a default field: Marshal, Unmarshal (into a fresh value and into values that already hold another expression), Validate, byte-identical re-encoding, identical String/Render/RenderParam, and DeepEqual whenever every leaf has the kind the harness' own inference assigns to its JSON text (exceptions are counted, not assumed). Non-trivial = distinct JSON skeleton."
 	floor(res.Counters["round_trips"] >= 1000, &reasons, "round trips %d", res.Counters["round_trips"])
 	floor(res.Counters["deepequal_eligible"] >= 500, &reasons, "DeepEqual-eligible %d", res.Counters["deepequal_eligible"])
 	floor(res.NDistinct("operators") >= 19, &reasons, "operators seen %d < 19", res.NDistinct("operators"))
